@@ -51,7 +51,7 @@ def verdict(contract, module, env, outcome):
                 return 'model-violates-requires', [r]
         if outcome['kind'] == 'return':
             ev['result'] = outcome['value']
-            for e in contract.ensures + contract.ensures_all:
+            for e in contract.ensures + contract.ensures_all + contract.concrete_ensures:
                 if not eval(e, ev):
                     violated.append('ensures: ' + e)
             for cls in contract.raises_iff:
